@@ -229,6 +229,25 @@ def api_records(ann, col, value_text, clean_line):
     r = MafRecord.from_line(clean_line, scheme=sch, validation_stringency=VS.Silent)
     r[col] = MafColumnRecord(col, value_text, column_index=k)
     out.append(("generic-column", r))
+    # (d) a column of another library class holding THAT class's null value (an empty column carried over from a record of
+    # another layout): whatever is accepted, the germline field of the file is the null spelling, and some classes print
+    # their null as something else (EntrezGeneId: 0)
+    import maflib.column_types as CT
+    for cname in ("EntrezGeneId", "NullableIntegerColumn", "NullableYesOrNo", "NullableUUIDColumn", "SequenceOfStrings", "NullableFloatColumn"):
+        cls = getattr(CT, cname, None)
+        if cls is None:
+            continue
+        try:
+            nulls = list(cls.__nullable_dict__().values())
+            fc = cls(col, nulls[0] if nulls else None, k)
+        except Exception:  # noqa
+            continue
+        r = MafRecord.from_line(clean_line, scheme=sch, validation_stringency=VS.Silent)
+        try:
+            r[col] = fc
+        except Exception:  # noqa
+            continue
+        out.append(("null-of-foreign-class:" + cname, r))
     return clean, out
 
 
@@ -271,7 +290,8 @@ def eval_writer(ann, col, text, clean_line):
             if leaked:
                 fails.append(dict(where, what="Strict writer emitted a non-null germline field", kind="leak",
                                   got=leaked[0].split("\t")[names.index(col)]))
-            elif not refused:
+            elif not refused and not how.startswith("null-of-foreign-class"):
+                # (a null value of another class may be taken or refused: only what reaches the file is judged)
                 fails.append(dict(where, what="Strict writer did not refuse the record with the format exception",
                                   kind="not-refused"))
             results.append({"how": how, "sorting": sort, "failures": fails,
